@@ -650,7 +650,8 @@ fn load_case(t: &str) -> Case {
 fn gen_write_map(rng: &mut Rng) -> (BTreeMap<String, String>, bool) {
     let mut m = BTreeMap::new();
     let long = rng.chance(1, 3);
-    for _ in 0..rng.below(4) {
+    // at most three entries in all: six orders, so that ORDER_TRIES calls meet the wanted one
+    for _ in 0..rng.below(if long { 3 } else { 4 }) {
         m.insert(gen_prop_text(rng, 1), gen_prop_text(rng, 0));
     }
     if long {
